@@ -361,3 +361,55 @@ class LinkerSolveContract(SolveContract):
 
 
 CONTRACTS = [SolvePeriodContract(), SolveContract()]
+
+
+# ---------------------------------------------------------------------------------------------------------------
+# "with the same options": an option that the caller leaves out takes the same default at every entry point
+# ---------------------------------------------------------------------------------------------------------------
+class SolverDefaults:
+    """Lemma over the signatures (read from the imported functions on every run): solve(), solve_period() and solve_t() - of the model, the
+    linker and the Fortran engine - give every shared solver option the same default value, so that solve() with an option left out is the
+    per-period loop with that option left out."""
+    qualname = 'fsic.core.interfaces.SolverMixin.solve~solve_period~BaseModel.solve_t (defaults)'
+    props = ('C05', 'C02', 'C08', 'C07')
+
+    def scenarios(self):
+        return ['lemma']
+
+    def custom_generate(self, scen):
+        import hashlib
+        import inspect
+        import time
+
+        import fsic.fortran
+        from fsic.core.interfaces import SolverMixin
+        from fsic.core.linkers import BaseLinker
+        from pyvc.contracts import FunctionReport
+        from pyvc.ctx import Ctx
+        rep = FunctionReport(qualname=self.qualname)
+        t0 = time.time()
+        ctx = Ctx(scenario=scen)
+        ctx.current_fn = self.qualname
+        ctx.default_props = self.props
+        fns = {'SolverMixin.solve': SolverMixin.solve, 'SolverMixin.solve_period': SolverMixin.solve_period, 'BaseModel.solve_t': BaseModel.solve_t,
+               'BaseLinker.solve': BaseLinker.solve, 'BaseLinker.solve_t': BaseLinker.solve_t,
+               'FortranEngine.solve': fsic.fortran.FortranEngine.solve, 'FortranEngine.solve_t': fsic.fortran.FortranEngine.solve_t}
+        rep.sha256 = hashlib.sha256(''.join(str(inspect.signature(f)) for f in fns.values()).encode()).hexdigest()
+        ref = {k: p.default for k, p in inspect.signature(BaseModel.solve_t).parameters.items() if k in OPTS}
+        ctx.prove(z3.BoolVal(set(ref) == set(OPTS)), 'single_period_solver_has_every_documented_option', 'lemma', assume_after=False, note=str(sorted(ref)))
+        for name, f in fns.items():
+            sig = inspect.signature(f).parameters
+            for opt in OPTS:
+                if opt not in sig:
+                    if name.startswith('FortranEngine') and opt == 'catch_first_error':
+                        continue            # the compiled engine has no per-operation error trapping (documented difference)
+                    ctx.prove(z3.BoolVal(False), f'{name}:accepts_option_{opt}', 'lemma', assume_after=False)
+                    continue
+                d = sig[opt].default
+                same = d == ref.get(opt) and type(d) is type(ref.get(opt))
+                ctx.prove(z3.BoolVal(same), f'{name}:default_of_{opt}_is_that_of_the_single_period_solver', 'lemma', assume_after=False, note=f'{d!r} vs {ref.get(opt)!r}')
+        rep.obligations = list(ctx.obligations)
+        rep.paths = 1
+        rep.scenarios[scen] = {'paths': 1}
+        rep.seconds = time.time() - t0
+        return rep
